@@ -2,7 +2,7 @@
    Model: Model/HeadShift.v, a model of ShiftFormula (theory/head.py): shifting a head formula from its origin step s to
    the current step s+d, with until/release unrolled and parts behind the current step read classically. *)
 From Coq Require Import List Bool Arith ZArith Lia.
-Require Import GenPrelude TheoryPrelude FormPrelude FromHeadForm FromHeadRanges HT TEL Laws HeadShift HeadComplete HeadForm TheorySem BodyTheoryFull HeadRulesProofs IntervalSet IntervalProofs HeadRanges RangesCover HeadDomain HeadDomainProofs.
+Require Import GenPrelude TheoryPrelude FormPrelude FromHeadForm FromHeadRanges HT TEL Laws HeadShift HeadComplete HeadForm TheorySem BodyTheoryFull HeadRulesProofs HeadBodyLink IntervalSet IntervalProofs HeadRanges RangesCover HeadDomain HeadDomainProofs.
 (* at the origin step the shifted formula is classically the formula itself *)
 Theorem C04_shift_origin_classical : forall (A : Type) (h : nat) (T : trace A) (p : hf A) (k : nat), k <= h ->
   ssat A h T T (shift A p 0) k = csat A h T p k.
@@ -77,6 +77,15 @@ Theorem C04_rules_of_a_state_mean_the_shifted_formula : forall (A : Type) (h : n
 Proof. exact rules_at_sat. Qed.
 Theorem C04_every_clause_becomes_a_rule : forall (A : Type) (inbase : A -> bool) (F : hf A) (d : nat), exists rs, rules_at A inbase F d = Some rs.
 Proof. exact rules_at_total. Qed.
+(* the two theory layers together: read with the literals the body theory (Model/BodyTheoryFull.v) has cached for their body formulas, in any
+   assignment that violates none of its constraints, the rules added at a state are jointly HT-satisfied exactly if the shifted formula is *)
+Theorem C04_added_rules_with_their_literals_mean_the_shifted_formula :
+  forall (A : Type) (A_eq_dec : forall a b : A, {a = b} + {a <> b}) (h : nat) (s : st A), Inv A A_eq_dec h nil s ->
+  forall (T : HeadShift.trace A) (v : nat -> bool), ok_cls A T v s -> ok_ext A A_eq_dec v s ->
+  forall (H : HeadShift.trace A) (inbase : A -> bool) (F : hf A) (d k : nat) (rs : list (hrule A)) (lss : list (list (lit A))),
+  (forall a, inbase a = false -> H k a = false) -> rules_at A inbase F d = Some rs -> Forall2 (fun r ls => lits_of A A_eq_dec s k (bd A r) ls) rs lss ->
+  forallb (fun p => added_rule_sat A T v H k (hd A (fst p)) (snd p)) (List.combine rs lss) = ssat A h H T (shift A F d) k.
+Proof. exact added_rules_mean_shifted_formula. Qed.
 (* the domain rule: the time ranges computed for the atoms of a head formula (TheoryAtomTransformer, increments REGENERATED from
    transformers/head.py) cover every atom that a shifted formula can have in a rule head, at its distance from the origin state - so the atom
    has been introduced into the atom base and ClauseToRule finds it *)
@@ -109,6 +118,7 @@ Print Assumptions C04_head_to_body_formula_keeps_the_value.
 Print Assumptions C04_rule_body_formula_negates_the_shifted_part.
 Print Assumptions C04_rules_of_a_state_mean_the_shifted_formula.
 Print Assumptions C04_every_clause_becomes_a_rule.
+Print Assumptions C04_added_rules_with_their_literals_mean_the_shifted_formula.
 Print Assumptions C04_ranges_cover_every_head_atom.
 Print Assumptions C04_domain_rule_covers_every_head_atom.
 Print Assumptions C04_interval_set_add.
